@@ -2364,6 +2364,18 @@ impl PeerConnection {
                         return Err(RtcError::Internal(format!("DTLS runner panicked: {e}")));
                     }
                     dtls_runner_done = true;
+                    // The handshake task is gone. If it ended without a final
+                    // state (closed locally while handshaking) nothing will
+                    // ever change the state again: do not wait for it.
+                    if matches!(
+                        *state_rx.borrow(),
+                        crate::transports::dtls::DtlsState::New
+                            | crate::transports::dtls::DtlsState::Handshaking
+                    ) {
+                        return Err(RtcError::Internal(
+                            "DTLS transport closed during the handshake".into(),
+                        ));
+                    }
                     // Loop back: the top-of-loop state check will return/err
                     // based on the final DtlsState set by the handshake.
                 }
